@@ -274,3 +274,26 @@ package standard
 //@ hint [inj-prop] forall a Bytes, b Bytes :: bnorm(a) && bnorm(b) && propKey(a) == propKey(b) ==> a == b
 //@ hint [inj-att] forall a Bytes, b Bytes :: bnorm(a) && bnorm(b) && attKey(a) == attKey(b) ==> a == b
 //@ hint [tags] forall a Bytes, b Bytes :: propKey(a) != attKey(b)
+
+// ---- slashing-protection export (C11) ----
+// Assumed boundary (the body walks a badger iterator): the returned map mirrors the store for the 49-byte keys.
+//@ func (*Store).FetchAll
+//@ requires s != nil
+//@ ensures [all] result1 == nil ==> result0 != nil && (forall k [49]byte :: (k in result0) <==> (bytes(k) in db)) && (forall k [49]byte :: k in result0 ==> result0[k] != nil && allocated(result0[k]) && bytes(result0[k]) == db[bytes(k)])
+
+//@ func (*Service).ExportSlashingProtection
+//@ reveal rowPropOk rowPropL rowAttOk rowAttS rowAttT
+//@ requires s != nil && s.store != nil
+//@ ensures [records] result1 == nil ==> result0 != nil && (forall k [48]byte :: k in result0 ==> result0[k] != nil && allocated(result0[k]) && result0[k].HighestProposedSlot == wmPropL(bytes(k)) && result0[k].HighestAttestedSourceEpoch == wmAttS(bytes(k)) && result0[k].HighestAttestedTargetEpoch == wmAttT(bytes(k)))
+//@ ensures [absent] result1 == nil ==> (forall k [48]byte :: !(k in result0) ==> wmPropL(bytes(k)) == 0 - 1 && wmAttS(bytes(k)) == 0 - 1 && wmAttT(bytes(k)) == 0 - 1)
+//@ hint [akey] forall k [48]byte :: bytes(withtag(k, 2)) == attKey(bytes(k))
+//@ hint [pkey] forall k [48]byte :: bytes(withtag(k, 3)) == propKey(bytes(k))
+//@ loop #1
+//@ invariant [ctx] results != nil && fresh(results) && entries != nil && (forall k [49]byte :: (k in entries) <==> (bytes(k) in db)) && (forall k [49]byte :: k in entries ==> entries[k] != nil && allocated(entries[k]) && bytes(entries[k]) == db[bytes(k)])
+//@ invariant [sub] forall k [49]byte :: visited()[k] ==> k in entries
+//@ invariant [tags] forall k [49]byte :: visited()[k] ==> k[48] == 2 || k[48] == 3
+//@ invariant [dom] forall p [48]byte :: (p in results) <==> (visited()[withtag(p, 2)] || visited()[withtag(p, 3)])
+//@ invariant [recs] forall p [48]byte :: p in results ==> results[p] != nil && fresh(results[p]) && allocated(results[p])
+//@ invariant [distinct] forall p [48]byte, q [48]byte :: p in results && q in results && p != q ==> results[p] != results[q]
+//@ invariant [att] forall p [48]byte :: p in results ==> results[p].HighestAttestedSourceEpoch == (if visited()[withtag(p, 2)] then decAttS(bytes(entries[withtag(p, 2)])) else 0 - 1) && results[p].HighestAttestedTargetEpoch == (if visited()[withtag(p, 2)] then decAttT(bytes(entries[withtag(p, 2)])) else 0 - 1)
+//@ invariant [prop] forall p [48]byte :: p in results ==> results[p].HighestProposedSlot == (if visited()[withtag(p, 3)] then decPropL(bytes(entries[withtag(p, 3)])) else 0 - 1)
